@@ -95,6 +95,9 @@ fn part_a(ctx: &mut Ctx) {
                                 let mut stop = false;
                                 let st = dfs(ctx, &case, 5_000, true, |ctx, run, spec| {
                                     account(ctx, run);
+                                    if required && case.n >= 2 {
+                                        ctx.sample(|| crate::props::graph::sample_json(&case, run, spec));
+                                    }
                                     if required {
                                         ctx.distinct.insert(chash ^ run.trace_hash.rotate_left(13));
                                         ctx.count("runs_where_the_fault_must_fire", 1);
@@ -280,7 +283,6 @@ fn run(ctx: &mut Ctx) {
     // split the budget: B is cheap and bounded by count
     part_b(ctx);
     part_a(ctx);
-    ctx.sample(|| json!({"part_a": {"graph": "f0 -> f1 -> f2", "fault": "failing command in f2", "requested": ["f0"], "threads": 2, "schedules": "all (DFS)"}, "part_b": {"shape": "chain", "fault": "output of c.txt is a symlink to /dev/full", "threads": 4}}));
 }
 
 fn replay(ctx: &mut Ctx, v: &Value) {
